@@ -97,9 +97,11 @@ class Concretiser:
             k = h[field]
             if k != "missing":
                 out[field] = kind_value(k, self.variant, ident, field)
-        if h["port"] in ("int",) and h["hostname"] == "str":
+        # (a string that cannot name a host is a string: Hints.tla lets such a hint be tried - MayDial - and a client that has
+        # Tor hands it to Tor like any other name; the port it would be dialled at identifies it like the others)
+        if h["port"] in ("int",) and h["hostname"] in ("str", "oddstr"):
             ids[out["port"]] = [h]
-        elif h["port"] == "bool" and h["hostname"] == "str":
+        elif h["port"] == "bool" and h["hostname"] in ("str", "oddstr"):
             ids[int(out["port"])] = [h]
         return out, ids
 
